@@ -509,8 +509,9 @@ Proof. destruct b; try reflexivity. unfold roll_net_deriv, roll_of. now rewrite 
 Lemma backend_pi_partial b : fortran_pi_free b true = true -> backend_pi b = pi_f64.
 Proof. destruct b; vm_compute; intros H; try reflexivity; discriminate H. Qed.
 
-Lemma backend_pi_fortran_before_fix : fixed_fortran_pi = false -> backend_pi BFortran <> pi_f64.
-Proof. vm_compute. intros H E. first [discriminate H | discriminate E]. Qed.
+(* the tree before fix D108 (switch value false): the Fortran constant is float32(pi), computed, not assumed *)
+Lemma backend_pi_fortran_before_fix : backend_pi_gen false BFortran = pi_f32 /\ backend_pi_gen false BFortran <> pi_f64.
+Proof. split; [reflexivity|]. vm_compute. intro E. discriminate E. Qed.
 
 (* since fix D108 (switch fixed_fortran_pi = true): no guard needed *)
 Lemma backend_pi_full b : backend_pi b = pi_f64.
